@@ -38,7 +38,7 @@ impl StateGraph {
     pub uninterp spec fn edge_list(&self, s: int) -> Seq<(Symbol<$T>, StIdx<$T>)>;  // edges of state s, in HashMap iteration order
     // what lrtable's own construction guarantees about a StateGraph for `grm` (assumed)
     pub open spec fn wf(&self, grm: &YaccGrammar) -> bool {
-        &&& self.nstates() < $TMAX
+        &&& self.nstates() <= $TMAX
         &&& forall|s: int, e: int| 0 <= s < self.nstates() && 0 <= e < self.items(s).len() ==>
                 ((#[trigger] self.items(s)[e]).0.0.0 as nat) < grm.nprods() && self.items(s)[e].1@.len() == grm.ntok()
         &&& forall|s: int, e: int| 0 <= s < self.nstates() && 0 <= e < self.edge_list(s).len() ==>
@@ -49,9 +49,9 @@ impl StateGraph {
         &&& forall|s: int, e1: int, e2: int| 0 <= s < self.nstates() && 0 <= e1 < e2 < self.edge_list(s).len() ==>
                 (#[trigger] self.edge_list(s)[e1]).0 != (#[trigger] self.edge_list(s)[e2]).0
     }
-    // stategraph.rs: StIdx(self.states.len().as_()), states.len() < StorageT::MAX asserted in new()
+    // contract proved in unit c20_states (StateGraph::new only builds graphs whose state count fits StorageT)
     #[verifier::external_body]
-    pub fn all_states_len(&self) -> (r: StIdx<$T>) ensures r.0 == self.nstates(), self.nstates() < $TMAX { unimplemented!() }
+    pub fn all_states_len(&self) -> (r: StIdx<$T>) ensures r.0 == self.nstates(), self.nstates() <= $TMAX { unimplemented!() }
     // dialect rule 5: `sg.iter_closed_states().enumerate()` + `for (&(pidx, dot), ctx) in &state.items`
     #[verifier::external_body]
     pub fn closed_items(&self, s: usize) -> (r: &Vec<Item>) requires s < self.nstates() ensures r@ == self.items(s as int) { unimplemented!() }
@@ -366,7 +366,6 @@ pub proof fn lemma_zero_cell()
 //@ctx new: the StateGraph was built for this grammar by lrtable (sg.wf): item productions and edge targets/symbols are in range, contexts have one bit per token, edge symbols of a state are distinct
 //@ctx new: fewer than 2^31 tokens (the i32 counter `distinct_reduces`; automatic for u8/u16 storage)
 //@ctx new: five panic sites whose unreachability is LR theory about the item sets are assumed unreachable (assume_lr / unreachable_lr): assert!(final_state.is_none()), `_ => panic!("Internal error")`, `Action::Shift(x) => assert!(*ref_stidx == x)`, `Action::Accept => panic!("Internal error")`, assert!(final_state.is_some())
-//@ctx new: `assert!(all_states_len < StorageT::max_value() - 1)` is read as a refusal (allowed divergence) although its message is not the documented one
 fn new(grm: &YaccGrammar, sg: &StateGraph) -> (r: Result<Tables, StateTableError>)
     requires
         grm.wf(), grm.ntok() < 0x8000_0000, sg.wf(grm),
@@ -392,7 +391,6 @@ fn new(grm: &YaccGrammar, sg: &StateGraph) -> (r: Result<Tables, StateTableError
         assert(nt * ns == ns * nt && nr * ns == ns * nr) by(nonlinear_arith);
     }
     //@body file=lrtable/src/lib/statetable.rs fn=new block=`let mut state_actions = Vob::<u64>::from_elem_with_storage_type` endx=`let actions_sv = SparseVec`
-    //@rule n=1 `^(\s*)\{ let assert_cond_ = sg\.all_states_len\(\)\.as_storaget\(\) < \$TMAX - \(1 as \$T\); assert\(assert_cond_\); \}$` => `\1if !(sg.all_states_len().as_storaget() < $TMAX - (1 as $T)) { refuse(); }`
     //@atend n=1 `^(\s*)for \(stidx, state\) in sg$` =>>
             proof { lemma_edge_rows_below(sg, A0_, actions@, G0_, gotos@, fi_ as int, nt, nr, ns); lemma_row(fi_ as int, nt, ns); lemma_row(fi_ as int, nr, ns); }
     //@end
